@@ -530,7 +530,8 @@ func (g *pgen) stmt() string {
 		body := g.block(1 + g.pick(2))
 		g.inLoop--
 		delete(g.loopVar, c.name)
-		body = strings.TrimSuffix(body, "}") + c.name + "++\n}"
+		// the counter is incremented FIRST: a `continue` in the body must not skip it (it would loop forever)
+		body = "{\n" + c.name + "++\n" + strings.TrimPrefix(body, "{\n")
 		return c.name + " = 0\nfor " + c.name + " < " + strconv.Itoa(1+g.pick(4)) + " " + body
 	case 12:
 		// N times loop
